@@ -167,6 +167,8 @@ AsPaths(asn4) ==
    \cup {<<Seg(2, <<<<0, 65001>>>>), Seg(1, <<<<0, 3>>, <<0, 4>>>>)>>, <<Seg(2, <<<<0, 1>>>>), Seg(2, <<<<0, 2>>>>)>>,
          <<Seg(3, <<<<0, 65010>>>>), Seg(4, <<<<0, 65011>>>>), Seg(2, <<<<0, 7>>>>)>>}
    \cup {<<Seg(2, LongAs(n))>> : n \in (IF asn4 THEN {62, 63, 64} ELSE {125, 126, 127, 128})}
+   \* a segment with the largest count its one-octet count field can hold, and a path split after it
+   \cup {<<Seg(st, LongAs(n))>> : st \in {1, 2}, n \in {254, 255}} \cup {<<Seg(2, LongAs(255)), Seg(2, LongAs(45))>>}
    \* several segments whose total crosses the 255-octet boundary although no single segment does, and the reverse
    \cup (IF asn4 THEN {<<Seg(2, LongAs(60)), Seg(1, LongAs(5))>>, <<Seg(3, LongAs(40)), Seg(2, LongAs(40))>>, <<Seg(1, LongAs(2)), Seg(2, LongAs(64))>>,
                        <<Seg(2, LongAs(31)), Seg(2, LongAs(31))>>, <<Seg(2, LongAs(31)), Seg(1, LongAs(32))>>}
@@ -176,12 +178,16 @@ AsPaths(asn4) ==
 WellKnownComm == {<<65535, x>> : x \in {0, 1, 2, 3, 4, 5, 6, 666, 65281, 65282, 65283, 65284, 65285, 65535}} \cup {<<0, 0>>}
 Comms == {<<c>> : c \in WellKnownComm \cup {<<0, 1>>, <<100, 200>>, <<65000, 65535>>, <<1, 0>>}}
          \cup {<<<<100, 200>>, <<65535, 65281>>>>, <<<<1, 1>>, <<2, 2>>, <<3, 3>>>>}
-Larges == {<<<<a, b, c>>>> : a \in {<<0, 1>>, <<32768, 0>>, <<65535, 65535>>}, b \in {<<0, 0>>, <<65535, 65535>>}, c \in {<<0, 2>>, <<32768, 1>>}}
+         \* the largest lists that fit a one-octet attribute length (252 octets), one less, and the first that needs two octets
+         \cup {[i \in 1..n |-> <<100, i>>] : n \in {62, 63, 64}}
+ManyLarge(n) == [i \in 1..n |-> <<<<0, 1>>, <<0, 2>>, <<0, i>>>>]
+Larges == {ManyLarge(n) : n \in {21, 22}} \cup {<<<<a, b, c>>>> : a \in {<<0, 1>>, <<32768, 0>>, <<65535, 65535>>}, b \in {<<0, 0>>, <<65535, 65535>>}, c \in {<<0, 2>>, <<32768, 1>>}}
           \cup {<<<<<<0, 1>>, <<0, 2>>, <<0, 3>>>>, <<<<1, 0>>, <<0, 0>>, <<0, 7>>>>>>}
 \* extended communities as 8 octets: a few of each kind the decoder renders (the full set is in WireComm.tla)
 ExtOne == {<<0, 2, 0, 100, 0, 0, 0, 200>>, <<1, 2, 1, 2, 3, 4, 0, 5>>, <<2, 2, 0, 1, 17, 112, 0, 5>>, <<0, 3, 255, 255, 255, 255, 255, 255>>,
            <<0, 2, 255, 255, 255, 255, 255, 255>>, <<2, 2, 255, 255, 255, 255, 255, 255>>}
 Exts == {<<e>> : e \in ExtOne} \cup {<<<<0, 2, 0, 100, 0, 0, 0, 200>>, <<1, 2, 1, 2, 3, 4, 0, 5>>>>}
+        \cup {[i \in 1..n |-> <<0, 2, 0, 100, 0, 0, 0, i>>] : n \in {31, 32}}
 \* an attribute is the pair <<type code, value>>: a tuple, so that TLC orders attributes by type code first and never
 \* has to compare values of different kinds
 At(t, v) == <<t, v>>
@@ -192,6 +198,7 @@ AttrValues(asn4) ==
    \cup {At(4, v) : v \in U32Pool} \cup {At(5, v) : v \in U32Pool} \cup {At(6, 0)}
    \cup {At(7, [as |-> a, ip |-> i]) : a \in (IF asn4 THEN As4 ELSE As2), i \in Ips}
    \cup {At(8, v) : v \in Comms} \cup {At(9, v) : v \in Ips} \cup {At(10, <<v>>) : v \in Ips} \cup {At(10, <<<<1, 1, 1, 1>>, <<2, 2, 2, 2>>, <<3, 3, 3, 3>>>>)}
+   \cup {At(10, [i \in 1..n |-> <<10, 0, 0, i>>]) : n \in {63, 64}}
    \cup {At(16, v) : v \in Exts} \cup {At(32, v) : v \in Larges}
 OneOfKind(t, asn4) == CHOOSE a \in AttrValues(asn4) : a[1] = t /\ (t = 2 => Len(a[2]) = 2) /\ (t = 8 => Len(a[2]) = 2)
 OptKinds == {4, 5, 6, 7, 8, 9, 10, 16, 32}
